@@ -533,6 +533,35 @@ func genConsts() string {
 		rel = "app/cache/cache.go"
 		env = collectConsts(parseFile(rel))
 		emitInt("cache_cacheEntrySizeLimit", mustInt(env, "cacheEntrySizeLimit", rel), rel)
+		// what proxyHandler routes on: the decoded URL path (not the client's escaped spelling of it)
+		{
+			prel := "app/proxy.go"
+			pf := parseFile(prel)
+			ph := mustFunc(pf, prel, "", "proxyHandler")
+			arg := ""
+			ast.Inspect(ph, func(n ast.Node) bool {
+				if c, ok := n.(*ast.CallExpr); ok && src(c.Fun) == "s.LookupBackend" && len(c.Args) == 3 {
+					arg = src(c.Args[2])
+				}
+				return true
+			})
+			fmt.Fprintf(&sb, "def app_lookupPathArg : String := %s  -- %s proxyHandler: third argument of s.LookupBackend\n", strconv.Quote(arg), prel)
+			// and the request ID it stores the request under comes from App Engine, not from the client
+			idArg := ""
+			ini := mustFunc(pf, prel, "", "init")
+			assigns := 0
+			ast.Inspect(ini, func(n ast.Node) bool {
+				if a, ok := n.(*ast.AssignStmt); ok && len(a.Lhs) == 1 && src(a.Lhs[0]) == "ID" {
+					assigns++
+					idArg = src(a.Rhs[0])
+				}
+				return true
+			})
+			if assigns != 1 {
+				idArg = fmt.Sprintf("<%d assignments>", assigns)
+			}
+			fmt.Fprintf(&sb, "def app_requestIDSource : String := %s  -- %s init: the only value assigned to the request ID handed to proxyHandler\n", strconv.Quote(idArg), prel)
+		}
 		// which methods of the caching store are plain delegations to the backing store (authorisation and
 		// routing decisions must not be answered from memcache, which outlives re-registration and clean-up)
 		{
